@@ -93,3 +93,20 @@ Example C03_nonvacuous :
   ex_skip (ex_world 7 [1] txt_a) ex_disk = true /\
   resources_is_empty ex_input = false.
 Proof. vm_compute. repeat split. Qed.
+
+(* HOW THE PER-INPUT VERDICTS ARE COMBINED (async_utils.rs `all` / `both`; Model/AsyncUtils.v).  "Is this input unchanged?" is
+   evaluated concurrently, one future per path and per command; `all` scans the verdicts in the order the futures complete and
+   answers false at the first false.  The answer is the conjunction, whatever the completion order: an unchanged target is
+   skipped however the checks are scheduled. *)
+From Zinoma.Model Require Import AsyncUtils.
+From Zinoma.Proofs Require Import AsyncUtils.
+From Coq Require Import Permutation.
+
+Theorem C03_all_is_the_conjunction : forall l, all_results l = true <-> Forall (fun r => r = true) l.
+Proof. exact all_results_spec. Qed.
+
+Theorem C03_all_order_independent : forall l l', Permutation l l' -> all_results l = all_results l'.
+Proof. exact all_results_perm. Qed.
+
+Theorem C03_both_spec : forall a b, both a b = true <-> a = true /\ b = true.
+Proof. exact both_spec. Qed.
